@@ -8,6 +8,7 @@ use egverif::{with_image, with_styled};
 use embedded_graphics::image::{Image, ImageDrawable};
 use embedded_graphics::pixelcolor::{BinaryColor, Gray8, Rgb565};
 use embedded_graphics::prelude::*;
+use serde::{Deserialize, Serialize};
 
 fn check_prim<C: TestColor>(case: &Styled2, obs: &mut Obs) {
     let sty = case.sty;
@@ -90,6 +91,88 @@ fn check_text<C: TestColor>(case: &TextCase, obs: &mut Obs) {
     }
 }
 
+/// A drawable on a target with a small bounding box that it overhangs: the two target flavours must
+/// leave the same pixels *inside the target's box* (what lies outside is dropped by a real display).
+#[derive(Clone, Debug, PartialEq, Eq, Hash, Serialize, Deserialize)]
+enum BoundedCase {
+    Img { img: ImgCase, tb: (i32, i32, u32, u32) },
+    Text { text: TextCase, tb: (i32, i32, u32, u32) },
+    Prim { prim: Styled2, tb: (i32, i32, u32, u32) },
+}
+
+fn bounded<D: Drawable>(d: &D, tb: &(i32, i32, u32, u32), obs: &mut Obs)
+where
+    D::Color: std::hash::Hash + core::fmt::Debug,
+{
+    let bb = rect(tb.0, tb.1, tb.2, tb.3);
+    let mut a = RecD::<D::Color>::with_box(bb);
+    let _ = d.draw(&mut a);
+    let mut b = RecN::<D::Color>::with_box(bb);
+    let _ = d.draw(&mut b);
+    let inside = |m: &Map<D::Color>| -> Map<D::Color> { m.iter().filter(|(k, _)| bb.contains(Point::new(k.0, k.1))).map(|(k, v)| (*k, *v)).collect() };
+    let (ia, ib) = (inside(&a.map), inside(&b.map));
+    obs.outcome(&ia);
+    obs.nontrivial_if(!ia.is_empty() || !ib.is_empty());
+    obs.class("bounded-target");
+    obs.class_if(a.map.len() > ia.len() && !ia.is_empty(), "overhangs-the-target");
+    if ia != ib {
+        obs.fail("draw-default==draw-native-inside-the-target", format!("target box {:?}: {}", tb, map_diff(&ia, &ib)));
+    }
+}
+
+fn img_bounded<I: ImageDrawable>(img: &I, case: &ImgCase, tb: &(i32, i32, u32, u32), obs: &mut Obs)
+where
+    I::Color: std::hash::Hash + core::fmt::Debug,
+{
+    let at = Point::new(case.at.0, case.at.1);
+    let image = if case.center { Image::with_center(img, at) } else { Image::new(img, at) };
+    bounded(&image, tb, obs);
+}
+
+fn check_bounded(c: &BoundedCase, obs: &mut Obs) {
+    match c {
+        BoundedCase::Img { img, tb } => with_image!(img, IC, |i| img_bounded(i, img, tb, obs), panic!("bad image")),
+        BoundedCase::Text { text, tb } => bounded(&text.build::<Rgb565>(), tb, obs),
+        BoundedCase::Prim { prim, tb } => with_styled!(&prim.shape, prim.sty.build::<Rgb565>(), Rgb565, |s| bounded(&s, tb, obs)),
+    }
+}
+
+fn bounded_cases(tier: Tier) -> Vec<BoundedCase> {
+    let mut v = vec![];
+    for tb in [(0, 0, 8u32, 6u32), (-3, 2, 7, 5)] {
+        let offs = [(-2, 1), (1, -2), (tb.2 as i32 - 2, 1), (1, tb.3 as i32 - 1), (-2, -2), (0, 0), (tb.2 as i32 - 1, tb.3 as i32 - 1), (-20, 0)];
+        for o in offs {
+            let at = (tb.0 + o.0, tb.1 + o.1);
+            for bpp in BPPS {
+                for (w, h) in [(4u32, 3u32), (3, 4), (1, 1), (9, 7)] {
+                    let data = pattern(0, required_len(w, h, bpp));
+                    for sub in [None, Some((1, 1, 2, 2)), Some((0, 1, 9, 1))] {
+                        v.push(BoundedCase::Img { img: ImgCase { bpp, be: bpp == 4, w, h, data: data.clone(), sub, sub2: None, at, center: false }, tb });
+                    }
+                }
+            }
+            for (tc, bg, ul, st) in [(true, true, 0u8, 0u8), (true, false, 2, 0), (false, true, 0, 1), (true, true, 2, 1)] {
+                for text in ["ab", "a\nbc", "W"] {
+                    for font in ["ascii::FONT_4X6", "ascii::FONT_6X9"] {
+                        v.push(BoundedCase::Text { text: TextCase { font: font.into(), text: text.replace("\\n", "\n"), text_color: tc, bg, underline: ul, strike: st, baseline: 0, align: 0, lh: (1, 100), pos: at }, tb });
+                    }
+                }
+            }
+            let mut shapes = vec![Shape::Rect { x: at.0, y: at.1, w: 4, h: 3 }, Shape::Circle { x: at.0, y: at.1, d: 5 }, Shape::Ellipse { x: at.0, y: at.1, w: 6, h: 3 }, Shape::rrect_eq(at.0, at.1, 6, 5, (2, 2)), Shape::Tri { a: at, b: (at.0 + 5, at.1 + 1), c: (at.0 + 1, at.1 + 4) }, Shape::Line { a: at, b: (at.0 + 5, at.1 + 3) }, Shape::Sector { x: at.0, y: at.1, d: 6, start: 40, sweep: 800 }];
+            if tier.is_thorough() {
+                shapes.push(Shape::Arc { x: at.0, y: at.1, d: 7, start: 40, sweep: 800 });
+                shapes.push(Shape::Polyline { pts: vec![at, (at.0 + 4, at.1 + 1), (at.0, at.1 + 3)], tx: 1, ty: 0 });
+            }
+            for sh in shapes {
+                for sty in styles(2) {
+                    v.push(BoundedCase::Prim { prim: Styled2 { shape: sh.clone(), sty }, tb });
+                }
+            }
+        }
+    }
+    v
+}
+
 fn image_cases(tier: Tier) -> Vec<ImgCase> {
     let mut v = vec![];
     let (mw, mh) = tier.pick((5, 4), (9, 6));
@@ -150,6 +233,7 @@ fn run_part(run: &mut Run) {
             let fonts: Vec<usize> = if t { (0..FONTS.len()).step_by(7).collect() } else { vec![font_index("ascii::FONT_4X6"), font_index("iso_8859_1::FONT_6X10"), font_index("jis_x0201::FONT_10X20")] };
             run.sweep_vec("text-rgb565", "fonts x 11 strings x 16 colour/decoration combinations x 4 baselines x 3 alignments x line heights",
                 || text_catalogue(&fonts, &CATALOGUE_STRINGS, &[(1, 100), (0, 7)], (-3, 5)), check_text::<Rgb565>);
+            run.sweep_vec("bounded-target", "images (7 widths, 4 sizes, sub-images), text and seven primitive kinds x S(2) hanging over every edge and corner of two small target boxes (one not at the origin): both target flavours compared inside the target's box", || bounded_cases(tier), check_bounded);
             run.sweep_vec("text-binary", "one font x strings x decorations in BinaryColor",
                 || text_catalogue(&[font_index("ascii::FONT_6X9")], &CATALOGUE_STRINGS, &[(1, 100)], (2, 2)), check_text::<BinaryColor>);
         }
@@ -165,7 +249,7 @@ fn main() {
         assumptions: &["bounded to the listed catalogue (sizes, grids, stroke widths, fonts, strings)", "the harness's native target implements the documented meaning of fill_contiguous (row-major, stops at the shorter of area and stream), fill_solid and clear"],
         parts: |_| vec![PartSpec::new("shapes", "verif"), PartSpec::new("triangles", "verif"), PartSpec::new("polylines", "verif"), PartSpec::new("images-text", "verif")],
         run_part,
-        required_classes: |_| vec!["rect", "circle", "ellipse", "rrect", "triangle", "line", "arc", "sector", "polyline", "fill-only", "stroke-only", "fill+stroke", "stroke-colour-absent-width>0", "width-0", "fully-negative", "image", "sub-image", "sub-sub-image", "row-padding", "text", "text-background", "text-decoration", "text-multiline"],
+        required_classes: |_| vec!["rect", "circle", "ellipse", "rrect", "triangle", "line", "arc", "sector", "polyline", "fill-only", "stroke-only", "fill+stroke", "stroke-colour-absent-width>0", "width-0", "fully-negative", "image", "sub-image", "sub-sub-image", "row-padding", "text", "text-background", "text-decoration", "text-multiline", "bounded-target", "overhangs-the-target"],
         crash_is_verdict: false,
     })
 }
